@@ -132,11 +132,17 @@ def _process_step_expression(
         case 'field':
             # Change the target assets from the current ones to the associated
             # assets given the specified field name.
+            # The result is a set: an asset reached from several of the
+            # current targets is listed once, otherwise the list multiplies
+            # with every further field of a chain.
             new_target_assets = []
+            reached_ids = set()
             for target_asset in target_assets:
-                new_target_assets.extend(model.\
-                    get_associated_assets_by_field_name(target_asset,
-                        step_expression['name']))
+                for asset in model.get_associated_assets_by_field_name(
+                        target_asset, step_expression['name']):
+                    if asset.id not in reached_ids:
+                        reached_ids.add(asset.id)
+                        new_target_assets.append(asset)
             return (new_target_assets, None)
 
         case 'transitive':
